@@ -119,6 +119,15 @@ fn hist_case(tier: Tier, ins: &'static [InT], min_w: usize, fill_nulls: bool) ->
                     }
                 }
             }
+            // signed zeros: 0.0 and -0.0 are equal values, so which of them a minimum / maximum reports
+            // must not depend on the pre-window history either (float element types only)
+            if matches!(tin, InT::F64 | InT::OptF64) && ms % 2 == 0 {
+                for (i, v) in x.iter_mut().enumerate() {
+                    if *v == Some(0.0) && (i * 7 + hs as usize) % 3 != 0 {
+                        *v = Some(-0.0);
+                    }
+                }
+            }
             let n = x.len();
             // w in min_w..=n/3+1, h in 0..=min(3w, (n-w)/2)
             let w = (min_w + idx(ws, n / 3 + 1)).max(1);
